@@ -182,8 +182,11 @@ int read_header(sqfs_istream_t *fp, tar_header_decoded_t *out)
 			goto fail;
 		}
 
-		if ((size_t)ret < sizeof(hdr))
+		if (ret == 0)
 			goto out_eof;
+
+		if ((size_t)ret < sizeof(hdr))
+			goto fail_truncated;
 
 		if (is_memory_zero(&hdr, sizeof(hdr))) {
 			if (prev_was_zero)
@@ -290,6 +293,10 @@ fail_path_len:
 fail_pax_len:
 	fprintf(stderr, "rejecting PAX header with size %lu\n",
 		(unsigned long)pax_size);
+	goto fail;
+fail_truncated:
+	fputs("unexpected end-of-file in the middle of a tar header!\n",
+	      stderr);
 	goto fail;
 fail_magic:
 	fputs("input is not a ustar tar archive!\n", stderr);
